@@ -321,6 +321,10 @@ class Engine(ExprMixin, StmtMixin, CallMixin, BuiltinMixin, EngineBase):
         """Seq(x): view a list/tuple as an immutable sequence value."""
         return self.bind(self.ev(node.args[0], p), lambda q, v: [(q, self.to_seq(v, q))])
 
+    def sp_EmptySeq(self, node, p):
+        """EmptySeq(Type): the empty sequence of the given element type (initial value of a ghost sequence)."""
+        return [(p, VSeq.empty(self.spec_type(node.args[0])))]
+
     def sp_unchanged(self, node, p):
         """unchanged('Class.field', ...): the field arrays equal their old versions (whole-heap frame)."""
         heap, epoch = p.old_heaps[-1]
